@@ -152,6 +152,13 @@ class MHistory:
                 # work piles up while no master runs: the new master's first cycle has to evict / move
                 for _ in range(self.rng.randint(1, 3)):
                     d.op_create_apps(priority=self.rng.choice([50, 100, 100]))
+            if i in restart_at and self.rng.random() < 0.35:
+                # a node goes away while no master runs: the records of a server that hosts something are met by the
+                # new master's start-up path only
+                hosts = sorted(s for s in d.node_clients if d.srv.children(d.z.path.placement(s)))
+                if hosts:
+                    d.op_presence_down(self.rng.choice(hosts))
+                    self.ctx.count('node_lost_during_master_outage')
             if self.rng.random() < 0.6:
                 d.op_running()
             if i in restart_at and self.rng.random() < 0.2:
